@@ -39,8 +39,12 @@ package filterstorage
 //@ func (*Default).reportRuleListError
 //@   modifies nothing
 
+// (C12: every new rule list gets a result cache of its own - a cache shared
+// with the list it is about to replace would be filled by the old list, under
+// the old list's lock, after the new one has cleared it.)
 //@ func (*Default).addRuleList
-//@   property C13
+//@   property C13 C12
+//@   atcall NewRefreshable assert a-result-cache-of-its-own: fresh(ref(arg1)) || isEmptyCache(arg1)
 //@   requires ST(s) && newRuleLists != nil && fl != nil && newRuleLists != s.ruleLists
 //@   modifies mapof(newRuleLists), rulelist.filter.engine, replaceCalls, replaces, cleanups, sbLen, copyFailed, lastRefreshText, storageText, engineText, cacheClears, achas, rlRefreshOK
 //@   ensures other-lists-untouched: forall k filter.ID :: k != fl.id ==> has(newRuleLists, k) == old(has(newRuleLists, k)) && newRuleLists[k] == old(newRuleLists[k])
